@@ -135,7 +135,8 @@ Definition gv (t : nat) (p : nat * nat) : nat := gvar fb t (fst p) (snd p).
 
 (** the counting condition of one crossing *)
 Definition Pcross1 (i : nat) (c : list nat) (s : asg) : Prop :=
-  Forall (fun di => awc_ok (S (T fb)) (map (cbit s di) (seq 0 (T fb)))
+  Forall (fun di => awc_ok (S (T fb - preamble_size fb i))
+                           (map (cbit s di) (seq (preamble_size fb i) (T fb - preamble_size fb i)))
                            (combination_weight fb di * sustain_of fb (hd 0 c) * crossing_weight fb c)
                            (nth i (fl_sizes fb) 0 * crossing_weight fb c))
          (trial_combinations_of fb c).
@@ -165,14 +166,16 @@ Proof.
 Qed.
 
 Lemma combo_vars_ok c di t fresh :
-  Forall (fun f => isact fb f = true) c -> In di (crossing_combos fb c) -> t < T fb -> (GZ < fresh)%Z ->
+  Forall (fun f => isact fb f = true) c -> Forall (fun f => lappl fb f t = true) c ->
+  In di (crossing_combos fb c) -> t < T fb -> (GZ < fresh)%Z ->
   Forall (fun v => 0 < v /\ (zn v <= fresh - 1)%Z) (map (gv t) di).
 Proof.
-  intros Hc Hdi Ht Hfr. destruct (combos_spec c di Hdi) as [A B].
-  apply Forall_map. apply Forall_forall. intros p Hp. unfold gv. split; [apply (gvar_pos fb HF1 HT)|].
-  assert (Hf : isact fb (fst p) = true).
-  { apply (proj1 (Forall_forall _ _) Hc). rewrite <- A. now apply in_map. }
-  pose proof (gvar_le fb HF1 HT t (fst p) (snd p) Ht Hf (proj1 (Forall_forall _ _) B p Hp)). lia.
+  intros Hc Ha Hdi Ht Hfr. destruct (combos_spec c di Hdi) as [A B].
+  apply Forall_map. apply Forall_forall. intros p Hp. unfold gv. split; [apply gvar_pos|].
+  assert (Hin : In (fst p) c) by (rewrite <- A; now apply in_map).
+  pose proof (proj1 (Forall_forall _ _) Hc _ Hin) as Hf. pose proof (proj1 (Forall_forall _ _) Ha _ Hin) as Hap.
+  cbv beta in Hf, Hap.
+  pose proof (gvar_le fb HF1 HT t (fst p) (snd p) Ht Hf (proj1 (Forall_forall _ _) B p Hp) Hap). lia.
 Qed.
 
 Lemma encode_combo c di t :
@@ -199,10 +202,23 @@ Variable fresh : Z.
 Hypothesis Hc : Forall (fun f => isact fb f = true) c.
 Hypothesis Hfr : (GZ < fresh)%Z.
 
+(** the crossing starts after its preamble; from there on every crossed factor has a level *)
+Let pre := preamble_size fb i.
+Let NT := T fb - pre.
+Hypothesis Hpre : pre < T fb.
+Hypothesis Hc2 : Forall (fun f => stride1 fb f = true /\ start_of fb f <= pre) c.
+
+Lemma crossed_appl t : pre <= t -> Forall (fun f => lappl fb f t = true) c.
+Proof.
+  intros Ht. apply Forall_forall. intros f Hf.
+  pose proof (proj1 (Forall_forall _ _) Hc f Hf) as Ha. destruct (proj1 (Forall_forall _ _) Hc2 f Hf) as [Hs Hst].
+  cbv beta in Ha. rewrite (lappl_stride1 fb HF1 f t Ha Hs). apply Nat.leb_le. lia.
+Qed.
+
 Let combos := trial_combinations_of fb c.
 Let nc := length combos.
-Let N := T fb * nc.
-Let rows := map (fun t => map (fun di => map (gv t) di) combos) (seq 0 (T fb)).
+Let N := NT * nc.
+Let rows := map (fun t => map (fun di => map (gv t) di) combos) (seq pre NT).
 Let flattened := concat rows.
 Let fresh1 := (fresh + zn N)%Z.
 Let iffs := map2 (fun sv vars => FIff (FVar sv) (FAnd (map fv vars))) (zrange fresh N) flattened.
@@ -213,23 +229,23 @@ Proof. unfold combos, trial_combinations_of. intros H. apply filter_In in H. app
 Lemma rows_uniform : Forall (fun r => length r = nc) rows.
 Proof. unfold rows. apply Forall_map. apply Forall_forall. intros t _. now rewrite map_length. Qed.
 
-Lemma rows_length : length rows = T fb.
+Lemma rows_length : length rows = NT.
 Proof. unfold rows. now rewrite map_length, seq_length. Qed.
 
 Lemma flattened_length : length flattened = N.
 Proof. unfold flattened. rewrite (concat_uniform_length rows nc rows_uniform), rows_length. reflexivity. Qed.
 
-Lemma flattened_nth t j : t < T fb -> j < nc ->
-  nth (t * nc + j) flattened [] = map (gv t) (nth j combos []).
+Lemma flattened_nth t j : t < NT -> j < nc ->
+  nth (t * nc + j) flattened [] = map (gv (pre + t)) (nth j combos []).
 Proof.
   intros Ht Hj. unfold flattened. rewrite (nth_concat_uniform rows nc [] t j rows_uniform) by (rewrite ?rows_length; assumption).
   unfold rows. rewrite (nth_indep _ [] (map (fun di => map (gv 0) di) combos)) by (rewrite map_length, seq_length; exact Ht).
-  rewrite (map_nth (fun t => map (fun di => map (gv t) di) combos) (seq 0 (T fb)) 0 t), seq_nth by exact Ht.
-  cbn [Nat.add]. rewrite (nth_indep _ [] (map (gv t) [])) by (rewrite map_length; exact Hj).
-  now rewrite (map_nth (fun di => map (gv t) di) combos [] j).
+  rewrite (map_nth (fun t => map (fun di => map (gv t) di) combos) (seq pre NT) 0 t), seq_nth by exact Ht.
+  rewrite (nth_indep _ [] (map (gv (pre + t)) [])) by (rewrite map_length; exact Hj).
+  now rewrite (map_nth (fun di => map (gv (pre + t)) di) combos [] j).
 Qed.
 
-Lemma index_split n : n < N -> exists t j, t < T fb /\ j < nc /\ n = t * nc + j.
+Lemma index_split n : n < N -> exists t j, t < NT /\ j < nc /\ n = t * nc + j.
 Proof.
   intros Hn. unfold N in Hn. assert (Hnc : 0 < nc) by (destruct nc; [lia|lia]).
   exists (n / nc), (n mod nc). split; [apply Nat.div_lt_upper_bound; lia|]. split; [apply Nat.mod_upper_bound; lia|].
@@ -240,7 +256,7 @@ Lemma flattened_vars_ok n : n < N ->
   Forall (fun v => 0 < v /\ (zn v <= fresh - 1)%Z) (nth n flattened []).
 Proof.
   intros Hn. destruct (index_split n Hn) as (t & j & Ht & Hj & ->). rewrite (flattened_nth t j Ht Hj).
-  apply (combo_vars_ok c); try assumption. apply combos_sub. apply nth_In. exact Hj.
+  apply (combo_vars_ok c); try assumption; [apply crossed_appl; lia|apply combos_sub; apply nth_In; exact Hj|unfold NT in Ht; lia].
 Qed.
 
 (** the values the state variables must take *)
@@ -318,7 +334,7 @@ Qed.
 (** the requests *)
 Let cw := crossing_weight fb c.
 Let size := nth i (fl_sizes fb) 0 * cw.
-Let tr (j : nat) : list Z := map (fun t => (fresh + zn (t * nc + j))%Z) (seq 0 (T fb)).
+Let tr (j : nat) : list Z := map (fun t => (fresh + zn (t * nc + j))%Z) (seq 0 NT).
 Let wt (di : list (nat * nat)) : nat := combination_weight fb di * sustain_of fb (hd 0 c).
 
 Lemma tr_ok j : j < nc -> Forall (fun v => (0 < v <= fresh1 - 1)%Z) (tr j).
@@ -327,9 +343,10 @@ Proof.
   assert (t * nc + j < N) by (unfold N; nia). unfold fresh1, zn. lia.
 Qed.
 
-Lemma tr_values s j : j < nc -> map (extS s) (tr j) = map (cbit s (nth j combos [])) (seq 0 (T fb)).
+Lemma tr_values s j : j < nc -> map (extS s) (tr j) = map (cbit s (nth j combos [])) (seq pre NT).
 Proof.
-  intros Hj. unfold tr. rewrite map_map. apply map_ext_in. intros t Ht. apply in_seq in Ht.
+  intros Hj. unfold tr. rewrite map_map, (map_seq_shift0 (cbit s (nth j combos [])) pre NT).
+  apply map_ext_in. intros t Ht. apply in_seq in Ht.
   rewrite extS_in by (unfold N; nia). rewrite flattened_nth by lia. unfold cbit.
   rewrite forallb_map_comp. reflexivity.
 Qed.
@@ -365,15 +382,15 @@ Proof.
   intros Hcf E. pose proof GZ_nonneg as HG.
   unfold crossing_f1 in Hcf. rewrite !andb_true_iff in Hcf. destruct Hcf as [[[_ Hsize] _] _].
   apply Nat.ltb_lt in Hsize.
-  unfold apply_one_crossing in E. fold combos in E. rewrite (f1_preamble fb HF1 i) in E. cbn [Nat.add] in E. rewrite Nat.sub_0_r in E.
-  assert (Eenc : cmapM (fun t => cmapM (fun di => encode_combination fb di t) combos) (seq 1 (T fb)) = COk rows).
-  { unfold rows. rewrite <- (seq_shift (T fb) 0).
+  unfold apply_one_crossing in E. fold combos in E. fold pre in E. fold NT in E.
+  assert (Eenc : cmapM (fun t => cmapM (fun di => encode_combination fb di t) combos) (seq (1 + pre) NT) = COk rows).
+  { unfold rows. cbn [Nat.add]. rewrite <- (seq_shift NT pre).
     rewrite (cmapM_ok _ (fun t => map (fun di => map (gv (t - 1)) di) combos)).
     - f_equal. rewrite map_map. apply map_ext. intros t. now replace (S t - 1) with t by lia.
     - intros t _. apply cmapM_ok. intros di Hdi. apply (encode_combo c); [exact Hc|now apply combos_sub]. }
   rewrite Eenc in E. cbn [cbind] in E.
   assert (Hrows : rows <> []).
-  { intros H. apply (f_equal (@length _)) in H. rewrite rows_length in H. cbn in H. lia. }
+  { intros H. apply (f_equal (@length _)) in H. rewrite rows_length in H. cbn in H. unfold NT in H. lia. }
   rewrite (match_first rows _ _ [] Hrows) in E.
   assert (Ehd : length (hd [] rows) = nc).
   { destruct rows as [|r0 rs] eqn:Er; [contradiction|]. cbn [hd]. pose proof rows_uniform as U. rewrite Er in U.
@@ -417,7 +434,17 @@ End One.
 Lemma crossing_f1_factors i c : crossing_f1 fb i c = true -> Forall (fun f => isact fb f = true) c.
 Proof.
   unfold crossing_f1. rewrite !andb_true_iff. intros [[[H _] _] _]. rewrite forallb_forall in H.
-  apply Forall_forall. intros f Hf. now apply H.
+  apply Forall_forall. intros f Hf. specialize (H f Hf). rewrite !andb_true_iff in H. apply H.
+Qed.
+
+Lemma crossing_f1_starts i c : crossing_f1 fb i c = true ->
+  preamble_size fb i < T fb /\
+  Forall (fun f => stride1 fb f = true /\ start_of fb f <= preamble_size fb i) c.
+Proof.
+  unfold crossing_f1. rewrite !andb_true_iff. intros [[[H _] Hp] _]. rewrite forallb_forall in H.
+  split; [now apply Nat.ltb_lt in Hp|].
+  apply Forall_forall. intros f Hf. specialize (H f Hf). rewrite !andb_true_iff in H.
+  destruct H as [[_ H1] H2]. apply Nat.leb_le in H2. now split.
 Qed.
 
 Lemma step_crossings cs : forall i fresh ct,
@@ -433,7 +460,8 @@ Proof.
     destruct (apply_one_crossing fb i c fresh) as [c1|e] eqn:E1; cbn [cbind] in E; [|discriminate].
     destruct (apply_crossings fb (S i) cs (ct_fresh c1)) as [c2|e] eqn:E2; cbn [cbind] in E; [|discriminate].
     inversion E. subst ct. clear E. cbn [ct_fresh ct_clauses ct_requests Pcrossings].
-    destruct (step_one_crossing i c fresh (crossing_f1_factors i c Hc) Hfr c1 Hc E1) as (e1 & D1).
+    destruct (crossing_f1_starts i c Hc) as [Hp1 Hp2].
+    destruct (step_one_crossing i c fresh (crossing_f1_factors i c Hc) Hfr Hp1 Hp2 c1 Hc E1) as (e1 & D1).
     pose proof (da_range _ _ _ _ _ _ D1) as R1.
     destruct (IH (S i) (ct_fresh c1) c2 Hcs ltac:(lia) E2) as (e2 & D2).
     exists (fun s => e2 (e1 s)). exact (definesA_seq _ _ _ _ _ _ _ _ _ _ _ D1 D2).
